@@ -2,7 +2,7 @@
 //! `Box<u64>` items with a drop ledger.
 
 use crate::{
-    exec::{block_on, block_on_poll, spin_limit, spin_until, spin_yield, Rendezvous, Task},
+    exec::{await_published, block_on, block_on_poll, spin_limit, spin_until, spin_yield, Ack, Rendezvous, Task},
     monitor::{check_ledger, check_sequence, Ev, Item, ThreadLog, Tracker, Verdict},
     Body, Env, Runner, Scenario,
 };
@@ -64,6 +64,12 @@ struct Cfg {
     /// yields before the first operation
     tx_delay: u64,
     rx_delay: u64,
+    /// after every published batch the producer waits (bounded) until the consumer has taken
+    /// it: each push is then a "queue becomes non-empty" event nothing later can paper over
+    tx_ack: bool,
+    /// after every released batch the consumer waits (bounded) until the producer has used the
+    /// space: each pop is a "space appears" event
+    rx_ack: bool,
 }
 
 impl Cfg {
@@ -84,6 +90,8 @@ impl Cfg {
             close_together: false,
             tx_delay: r.below(4),
             rx_delay: r.below(4),
+            tx_ack: false,
+            rx_ack: false,
         }
     }
 }
@@ -236,6 +244,19 @@ fn producer<'a>(sh: &Shared<'a>, mut send: Sender<Item<'a>>, log: &mut ThreadLog
             log.ev(Ev::SawClosed);
             break;
         }
+        if cfg.tx_ack && next != before {
+            match await_published(peer, next) {
+                Ack::Progressed => log.add("acks", 1),
+                Ack::LostWakeup => {
+                    log.fact("lost_wakeup", next);
+                    break;
+                }
+                Ack::Slow => {
+                    log.fact("ack_slow", next);
+                    break;
+                }
+            }
+        }
     }
     log.pushed = next;
     drop(pending);
@@ -353,6 +374,21 @@ fn consumer<'a>(sh: &Shared<'a>, mut recv: Receiver<Item<'a>>, log: &mut ThreadL
             me.publish(got);
             log.ev(Ev::Pop(before as u32, (got - before) as u32));
         }
+        if cfg.rx_ack && got != before {
+            // the producer can always reach got + 1 once `got` items have been released
+            let target = (got + 1).min(cfg.n.min(cfg.tx_stop_after));
+            match await_published(peer, target) {
+                Ack::Progressed => log.add("acks", 1),
+                Ack::LostWakeup => {
+                    log.fact("lost_wakeup", target);
+                    break;
+                }
+                Ack::Slow => {
+                    log.fact("ack_slow", target);
+                    break;
+                }
+            }
+        }
     }
     wait_gate(cfg.rx_close_gate, peer, log);
     if cfg.close_together {
@@ -412,7 +448,7 @@ fn run_cfg(name: &'static str, env: &Env, runner: &mut Runner, cfg: Cfg) {
             ),
         );
     }
-    if rx_drains && !rx.saw_closed {
+    if rx_drains && !rx.saw_closed && !(rx.facts.contains_key("lost_wakeup") || rx.facts.contains_key("ack_slow")) {
         v.fail(
             "close-not-observed",
             "draining consumer returned without observing Closed".into(),
@@ -420,17 +456,41 @@ fn run_cfg(name: &'static str, env: &Env, runner: &mut Runner, cfg: Cfg) {
     }
     // (3) a producer that could not finish must have been told the peer went away
     let tx_limit = cfg.n.min(cfg.tx_stop_after);
-    if tx.pushed < tx_limit && !tx.saw_closed {
+    let tx_bailed = tx.facts.contains_key("lost_wakeup") || tx.facts.contains_key("ack_slow");
+    if tx.pushed < tx_limit && !tx.saw_closed && !tx_bailed {
         v.fail(
             "producer-stopped-without-close",
             format!("producer stopped at {} of {tx_limit} without seeing Closed", tx.pushed),
         );
     }
-    if tx.saw_closed && rx_drains {
+    let rx_bailed = rx.facts.contains_key("lost_wakeup") || rx.facts.contains_key("ack_slow");
+    if tx.saw_closed && rx_drains && !rx_bailed {
         v.fail(
             "spurious-close",
             "producer saw Closed although the receiver drains until the sender closes".into(),
         );
+    }
+    // (2b) bounded progress, strict form: the peer published and this task stayed asleep
+    let mut bailed = false;
+    for (l, who, peer, what) in [(tx, "producer", "consumer", "data"), (rx, "consumer", "producer", "space")] {
+        if let Some(t) = l.facts.get("lost_wakeup") {
+            bailed = true;
+            v.fail(
+                "lost-wakeup",
+                format!(
+                    "the {who} published {what} (monitor count {t}) and the {peer} stayed parked with no wake-up latched beyond the bound; monitor facts: tx published={} rx published={}",
+                    tasks[TX].published.load(std::sync::atomic::Ordering::Relaxed),
+                    tasks[RX].published.load(std::sync::atomic::Ordering::Relaxed)
+                ),
+            );
+        }
+        if let Some(t) = l.facts.get("ack_slow") {
+            bailed = true;
+            runner.summary.inconclusive.push(format!(
+                "{name} seed={} iter={}: {peer} did not act on {what} {t} within the bound but was runnable",
+                env.seed, env.iter
+            ));
+        }
     }
     // (4) every item destroyed exactly once (consumed, or released by the channel)
     check_ledger(&mut v, &tracker);
@@ -449,7 +509,9 @@ fn run_cfg(name: &'static str, env: &Env, runner: &mut Runner, cfg: Cfg) {
         );
     }
 
+    let _ = bailed;
     v.trivial = tx.missed_precondition || rx.missed_precondition;
+    v.feature("acks", tx.facts.get("acks").copied().unwrap_or(0) + rx.facts.get("acks").copied().unwrap_or(0));
     v.feature("items_pushed", tx.pushed);
     v.feature("items_received", rx.received.len() as u64);
     v.feature("tx_saw_closed", tx.saw_closed as u64);
@@ -512,6 +574,31 @@ fn rx_waits(name: &'static str, env: &Env, r: &mut Runner) {
     if env.rng().chance(1, 2) {
         c.rx_mode = RxMode::PeekRelease;
     }
+    run_cfg(name, env, r, c)
+}
+
+fn ack_data(name: &'static str, env: &Env, r: &mut Runner) {
+    // ping-pong: every batch must be taken by the (usually parked) consumer before the
+    // producer does anything else, so no later push or the final close can rescue a lost wake-up
+    let mut c = Cfg::base(env);
+    let mut g = env.rng();
+    c.n = env.scale(5, 12);
+    c.tx_ack = true;
+    c.tx_mode = *g.pick(&[TxMode::Single, TxMode::Batch, TxMode::Extend]);
+    c.rx_mode = *g.pick(&[RxMode::Pop, RxMode::PeekRelease, RxMode::PeekClear]);
+    run_cfg(name, env, r, c)
+}
+
+fn ack_space(name: &'static str, env: &Env, r: &mut Runner) {
+    // the consumer waits for the producer to park on the full ring, then releases one batch at
+    // a time and waits until the producer has used the space
+    let mut c = Cfg::base(env);
+    let mut g = env.rng();
+    c.n = env.scale(8, 16);
+    c.rx_gate = Gate::PeerParked;
+    c.rx_ack = true;
+    c.tx_mode = *g.pick(&[TxMode::Single, TxMode::Batch, TxMode::Extend]);
+    c.rx_mode = *g.pick(&[RxMode::Pop, RxMode::PeekRelease]);
     run_cfg(name, env, r, c)
 }
 
@@ -607,6 +694,8 @@ pub fn scenarios() -> Vec<Scenario> {
         Scenario { name: "spsc_extend_clear", about: "slice().extend(iter); peek + clear", run: extend_clear },
         Scenario { name: "spsc_tx_waits", about: "consumer idles until the producer is parked on a full ring, then drains", run: tx_waits },
         Scenario { name: "spsc_rx_waits", about: "producer idles until the consumer is parked on an empty ring, then pushes", run: rx_waits },
+        Scenario { name: "spsc_ack_data", about: "ping-pong: each pushed batch must be taken by the parked consumer before the producer goes on (strict no-lost-wake-up)", run: ack_data },
+        Scenario { name: "spsc_ack_space", about: "each released batch must be used by the parked producer before the consumer goes on", run: ack_space },
         Scenario { name: "spsc_try_spin", about: "both sides use try_slice in spin loops (no wakers)", run: try_spin },
         Scenario { name: "spsc_mixed", about: "push/pop modes drawn from the seed", run: mixed },
         Scenario { name: "spsc_close_rx_mid", about: "receiver dropped after k pops while the producer is mid-stream", run: close_rx_mid },
